@@ -502,10 +502,20 @@ class Executor:
             if isinstance(v, SStr):
                 raise Unsupported("unpack string")
             vals = list(v)
+            stars = [i for i, t in enumerate(target.elts) if isinstance(t, ast.Starred)]
+            if len(stars) > 1:
+                raise Unsupported("two starred targets")
+            if stars:
+                k = stars[0]
+                after = len(target.elts) - k - 1
+                if len(vals) < len(target.elts) - 1:
+                    raise PyRaise("ValueError", "unpack")
+                mid = vals[k:len(vals) - after]
+                vals = vals[:k] + [mid] + vals[len(vals) - after:]
             if len(vals) != len(target.elts):
                 raise PyRaise("ValueError", "unpack")
             for t, x in zip(target.elts, vals):
-                self.assign(t, x, env, pf)
+                self.assign(t.value if isinstance(t, ast.Starred) else t, x, env, pf)
         else:
             raise Unsupported("assignment target %s" % type(target).__name__)
 
@@ -561,7 +571,7 @@ class Executor:
             return self.lift_global(pf.globs[node.id], node.id)
         if node.id in EXC_PARENTS or node.id == "Exception":
             return ("exc_class", node.id)
-        if node.id in ("int", "str", "len", "abs", "isinstance", "tuple", "range", "min", "max", "bool"):
+        if node.id in ("int", "str", "len", "abs", "isinstance", "tuple", "range", "min", "max", "bool", "ord", "list"):
             return ("builtin", node.id)
         raise Unsupported("name %s in %s" % (node.id, pf.name))
 
@@ -579,6 +589,15 @@ class Executor:
             return ("model", "datetime")
         if obj is _dt.time:
             return ("model", "time")
+        import bisect as _bisect
+        if obj is _bisect.bisect_left or obj is _bisect.bisect_right or obj is _bisect.bisect:
+            right = obj is not _bisect.bisect_left
+
+            def model(ex_, seq, x, _right=right):
+                if not isinstance(seq, (tuple, list)) or not all(isinstance(e, int) for e in seq) or list(seq) != sorted(seq):
+                    raise Unsupported("bisect on a non-constant sequence")
+                return sum(z3.If((e <= to_z3(x)) if _right else (e < to_z3(x)), 1, 0) for e in seq)
+            return BoundModel(model)
         if inspect.isclass(obj):
             return ("class", obj)
         if inspect.isfunction(obj):
@@ -592,6 +611,29 @@ class Executor:
 
     def e_List(self, node, env, pf):
         return [self.eval(e, env, pf) for e in node.elts]
+
+    def _comprehension(self, node, env, pf):
+        if len(node.generators) != 1:
+            raise Unsupported("nested comprehension")
+        comp = node.generators[0]
+        it = self.eval(comp.iter, env, pf)
+        if isinstance(it, SStr):
+            it = [SStr([c]) for c in it.chars]
+        if not isinstance(it, (list, tuple, range)):
+            raise Unsupported("comprehension over %r" % (it,))
+        out = []
+        inner = dict(env)
+        for item in it:
+            self.assign(comp.target, item, inner, pf)
+            if all(self.truth(self.eval(c, inner, pf)) for c in comp.ifs):
+                out.append(self.eval(node.elt, inner, pf))
+        return out
+
+    def e_GeneratorExp(self, node, env, pf):
+        return tuple(self._comprehension(node, env, pf))
+
+    def e_ListComp(self, node, env, pf):
+        return self._comprehension(node, env, pf)
 
     def e_IfExp(self, node, env, pf):
         if self.truth(self.eval(node.test, env, pf)):
@@ -953,6 +995,19 @@ class Executor:
             return range(*args)
         if name == "bool":
             return self.truth(args[0])
+        if name == "list":
+            return list(args[0])
+        if name == "ord":
+            cp = getattr(args[0], "codepoint", None)
+            if cp is None:
+                raise Unsupported("ord() of %r" % (args[0],))
+            return cp
+        if name in ("min", "max") and len(args) == 2 and all(isinstance(a, int) or is_sym(a) for a in args):
+            a, b = args
+            if isinstance(a, int) and isinstance(b, int):
+                return min(a, b) if name == "min" else max(a, b)
+            c = to_z3(a) <= to_z3(b)
+            return z3.If(c, to_z3(a), to_z3(b)) if name == "min" else z3.If(c, to_z3(b), to_z3(a))
         raise Unsupported("builtin " + name)
 
     def isinstance_(self, v, cls):
